@@ -31,6 +31,11 @@ enum Park {
     Single,
     /// streaming search, server sent k entries which the client has read; stream kept open
     Stream(usize),
+    /// streaming search read to its end (SearchResultDone received, ID released) but not yet
+    /// finish()ed; finish() is called at the very end, when its old ID may belong to someone else
+    DoneStream,
+    /// streaming search whose next() timed out (ID scrubbed and free again), finish()ed at the very end
+    TimedOutStream,
 }
 
 /// Server: requests whose DN says b=silent are never answered, b=eK get K entries and no Done,
@@ -73,7 +78,7 @@ async fn wrap_server(mut server: pipe::ServerEnd, log: Arc<Mutex<Vec<(u64, i64, 
 fn run_wrap_case(i: u64, pattern: u32, k_below: i32, rng: &mut Rng, rep: &mut Report, verbose: bool) {
     // IDs 1..4 and MAX-3..MAX; bit b of `pattern` says whether slot b is parked
     let slots: Vec<i32> = vec![1, 2, 3, 4, MAX - 3, MAX - 2, MAX - 1, MAX];
-    let parked: Vec<(i32, Park)> = slots.iter().enumerate().filter(|(b, _)| pattern >> b & 1 == 1).map(|(_, id)| (*id, if rng.bool() { Park::Single } else { Park::Stream(rng.usize(3)) })).collect();
+    let parked: Vec<(i32, Park)> = slots.iter().enumerate().filter(|(b, _)| pattern >> b & 1 == 1).map(|(_, id)| (*id, match rng.below(6) { 0 | 1 => Park::Single, 2 | 3 => Park::Stream(rng.usize(3)), 4 => Park::DoneStream, _ => Park::TimedOutStream })).collect();
     let n_ops = (2 * k_below + 8) as usize;
     let leave_pending: Vec<bool> = (0..n_ops).map(|_| rng.chance(1, 5)).collect();
     let rt = runtime(rng.next());
@@ -87,6 +92,7 @@ fn run_wrap_case(i: u64, pattern: u32, k_below: i32, rng: &mut Rng, rep: &mut Re
         let srv = tokio::spawn(wrap_server(c.server, log2));
         // park real pending operations on the chosen IDs
         let mut keep: Vec<Box<dyn std::any::Any>> = vec![];
+        let mut done_streams = vec![];
         let mut tok = 1u64;
         let mut events: Vec<(String, u64, i32, Vec<i32>)> = vec![]; // (what, token, last_after, inuse_after)
         for (id, kind) in &parked2 {
@@ -108,9 +114,26 @@ fn run_wrap_case(i: u64, pattern: u32, k_below: i32, rng: &mut Rng, rep: &mut Re
                     world::settle().await;
                     keep.push(Box::new(st));
                 }
+                Park::TimedOutStream => {
+                    let mut l = ldap.clone();
+                    let base = format!("op={},b=silent", tok);
+                    l.with_timeout(std::time::Duration::from_millis(50));
+                    let mut st = l.streaming_search(&base, Scope::Base, "(a=b)", vec!["*"]).await.expect("park timed-out stream");
+                    let _ = st.next().await; // times out after 50 virtual ms
+                    world::settle().await;
+                    done_streams.push(st);
+                }
+                Park::DoneStream => {
+                    let mut l = ldap.clone();
+                    let base = format!("op={},b=now", tok);
+                    let mut st = l.streaming_search(&base, Scope::Base, "(a=b)", vec!["*"]).await.expect("park done stream");
+                    while let Ok(Some(_)) = st.next().await {}
+                    world::settle().await;
+                    done_streams.push(st);
+                }
             }
             let t = ldap.verif_id_table();
-            events.push(("park".into(), tok, t.0, t.1));
+            events.push((if matches!(kind, Park::DoneStream | Park::TimedOutStream) { "park-done".into() } else { "park".into() }, tok, t.0, t.1));
             tok += 1;
         }
         // position the counter below the wrap point and issue operations
@@ -134,6 +157,15 @@ fn run_wrap_case(i: u64, pattern: u32, k_below: i32, rng: &mut Rng, rep: &mut Re
             }
             tok += 1;
         }
+        // now finish() the streams that ended long ago: nothing may change for anybody else
+        if !done_streams.is_empty() {
+            for st in done_streams.iter_mut() {
+                let _ = st.finish().await;
+            }
+            world::settle().await;
+            let t = ldap.verif_id_table();
+            events.push(("finish-done-streams".into(), 0, t.0, t.1));
+        }
         let final_table = ldap.verif_id_table();
         drop(keep);
         drop(main);
@@ -155,7 +187,14 @@ fn run_wrap_case(i: u64, pattern: u32, k_below: i32, rng: &mut Rng, rep: &mut Re
             last = MAX - k_below;
             continue;
         }
-        if what == "park" {
+        if what == "finish-done-streams" {
+            let model_inuse: Vec<i32> = inuse.iter().copied().collect();
+            if inuse_after != &model_inuse {
+                rep.violation("C05:finishing-an-ended-stream-released-somebody-else's-id", format!("after finish() of streams that had ended before: table {:?} model {:?}", inuse_after, model_inuse), replay.clone());
+            }
+            continue;
+        }
+        if what == "park" || what == "park-done" {
             // counter was set to id-1 by the harness
             let id = parked.iter().zip(events.iter()).find(|(_, e)| e.1 == *tok).map(|(p, _)| p.0).unwrap_or(0);
             last = id - 1;
@@ -180,6 +219,10 @@ fn run_wrap_case(i: u64, pattern: u32, k_below: i32, rng: &mut Rng, rep: &mut Re
         }
         last = want;
         inuse.insert(want);
+        if what == "park-done" {
+            // SearchResultDone arrived: the ID is free again
+            inuse.remove(&want);
+        }
         if what.starts_with("issue-answered") {
             if !what.ends_with(":Ok") {
                 rep.violation("C05:operation-failed-near-wrap", format!("{} token {}", what, tok), replay.clone());
